@@ -280,12 +280,19 @@ def run_relay(case):
             rec.update(called=True, data=bytes(data), cq0=len(cq), up_before=u is not None,
                        ub0=len(u.buffer) if u is not None else 0,
                        complete_before=(h.request.state == httpParserStates.COMPLETE))
+            def snap():
+                u1 = _up_conn(h, handler)
+                rec['newc'] = cq[rec['cq0']:]
+                rec['newu'] = ([bytes(b) for b in u1.buffer[rec['ub0']:]] if rec['up_before'] else
+                               [bytes(b) for b in u1.buffer]) if u1 is not None else []
             try:
                 r = orig_hd(data)
             except BaseException as e:
                 rec['exc'] = type(e).__name__
+                snap()
                 raise
             rec['ret'] = r
+            snap()
             return r
         h.handle_data = handle_data
 
@@ -313,9 +320,7 @@ def run_relay(case):
             orc = dict(req='inc', cdata='nothing')
             if rec.get('called'):
                 u = _up_conn(h, handler)
-                newc = cq[rec['cq0']:]
-                newu = [bytes(b) for b in u.buffer[rec['ub0']:]] if (u is not None and rec['up_before']) else \
-                       ([bytes(b) for b in u.buffer] if u is not None else [])
+                newc, newu = rec['newc'], rec['newu']
                 if rec['up_before'] and (handler == 'tunnel' or rec['complete_before']):
                     clrcvd += rec['data']
                 if handler == 'tunnel':
@@ -394,6 +399,10 @@ def _up_conn_any(S, h, handler):
 
 
 # ---- Coq terms
+def coq_Z(n):
+    return '(%d)%%Z' % n
+
+
 def coq_req(o):
     if o == 'inc':
         return 'RIncomplete'
@@ -425,13 +434,13 @@ def coq_cdata(o):
 def coq_event(ev, orc):
     r, w = ev.get('r', ()), ev.get('w', ())
     return '(mkEvent %s %s %s %s %s %s %s %s %s %s %s, %s)' % (
-        C.coq_Z(ev['now']), C.coq_bool('client' in r), C.coq_bool('client' in w),
+        coq_Z(ev['now']), C.coq_bool('client' in r), C.coq_bool('client' in w),
         C.coq_bool('up0' in r), C.coq_bool('up0' in w),
         coq_outcome(ev['c_send']) if ev.get('c_send') is not None else '(Accept 1000000)',
         coq_outcome(ev['u_send']) if ev.get('u_send') is not None else '(Accept 1000000)',
         coq_recv(ev['c_recv']) if ev.get('c_recv') is not None else 'ROsErr',
         coq_recv(ev['u_recv']) if ev.get('u_recv') is not None else 'ROsErr',
-        coq_req(orc['req']), coq_cdata(orc['cdata']), C.coq_Z(ev.get('probe', ev['now'])))
+        coq_req(orc['req']), coq_cdata(orc['cdata']), coq_Z(ev.get('probe', ev['now'])))
 
 
 def coq_relay_case(case, out):
@@ -439,9 +448,9 @@ def coq_relay_case(case, out):
     n = len(out['steps'])
     evs = [coq_event(ev, orc) for ev, orc in zip(case['events'][:n], out['oracles'][:n])]
     cfg = '(mkCfg %d %s %s %s)' % (case.get('max_send', 3), C.coq_bytes(ack_packet()),
-                                  C.coq_Z(case.get('timeout', 10) * TICK), C.coq_bool(not case.get('threaded')))
+                                  coq_Z(case.get('timeout', 10) * TICK), C.coq_bool(not case.get('threaded')))
     exp = ['(mkSO %d %d %d %d %d %d %s %s)' % (s['int'], s['res'], s['csent'], s['usent'], s['cpend'], s['upend'],
-                                               C.coq_Z(s['la']),
+                                               coq_Z(s['la']),
                                                C.coq_bool(s['inactive']) if s['inactive'] is not None else 'false')
            for s in out['steps']]
     f = out['fin']
@@ -451,4 +460,176 @@ def coq_relay_case(case, out):
     sel = C.coq_list(('None' if x is None else '(Some %s)' % coq_outcome(x)) for x in list(case.get('sel', [])) + ['pipe']) \
         if case.get('threaded') else '[]'
     return 'CRelay %s %s %s %s %s %s %s' % ('KTunnel' if handler == 'tunnel' else 'KHttp', cfg,
-                                           C.coq_Z(case.get('t0', T0)), C.coq_list(evs), sel, C.coq_list(exp), fin)
+                                           coq_Z(case.get('t0', T0)), C.coq_list(evs), sel, C.coq_list(exp), fin)
+
+
+# ------------------------------------------------------------------------------------------------
+# generation of event lists
+def cut(rng, data, maxpieces=4):
+    """random segmentation of data into 1..maxpieces non-empty pieces"""
+    data = bytes(data)
+    if len(data) <= 1:
+        return [data] if data else []
+    k = rng.randrange(1, min(maxpieces, len(data)) + 1)
+    cuts = sorted(rng.sample(range(1, len(data)), k - 1))
+    return [data[a:b] for a, b in zip([0] + cuts, cuts + [len(data)])]
+
+
+def connect_request(rng):
+    host = rng.choice(['h.example', 'a.b', 'origin.test'])
+    port = rng.choice([443, 8443, 9])
+    return ('CONNECT %s:%d HTTP/1.1\r\nHost: %s:%d\r\n\r\n' % (host, port, host, port)).encode()
+
+
+def http_request(rng, keepalive=True):
+    host = rng.choice(['h.example', 'origin.test'])
+    path = rng.choice(['/', '/a', '/x/y?z=1'])
+    extra = rng.choice(['', 'Accept: */*\r\n', 'Proxy-Connection: keep-alive\r\n', 'X-A: b\r\n'])
+    return ('GET http://%s%s HTTP/1.1\r\nHost: %s\r\n%s\r\n' % (host, path, host, extra)).encode()
+
+
+def web_request(rng, path):
+    return ('GET %s HTTP/1.1\r\nHost: localhost\r\n\r\n' % path).encode()
+
+
+def response_bytes(rng, kind=None):
+    """a well-formed HTTP/1.x response in one of the framings named by the property"""
+    kind = kind or rng.choice(['cl', 'chunked', 'chunked-ext', 'chunked-trailer', 'close', 'interim', 'cl0', 'binary'])
+    body = rand_bytes(rng, rng.choice([0, 1, 3, 5, 8, 13, 21]))
+    if kind == 'cl':
+        return b'HTTP/1.1 200 OK\r\nContent-Length: %d\r\n\r\n' % len(body) + body
+    if kind == 'cl0':
+        return b'HTTP/1.1 204 No Content\r\nContent-Length: 0\r\n\r\n'
+    if kind == 'binary':
+        body = bytes(rng.choice([0, 255, 13, 10, 128]) for _ in range(rng.choice([4, 9, 17])))
+        return b'HTTP/1.0 200 OK\r\nContent-Length: %d\r\n\r\n' % len(body) + body
+    if kind == 'close':
+        return b'HTTP/1.0 200 OK\r\nConnection: close\r\n\r\n' + body
+    if kind == 'interim':
+        return b'HTTP/1.1 100 Continue\r\n\r\nHTTP/1.1 200 OK\r\nContent-Length: %d\r\n\r\n' % len(body) + body
+    chunks = cut(rng, body, 3)
+    out = b'HTTP/1.1 200 OK\r\nTransfer-Encoding: chunked\r\n\r\n'
+    for ch in chunks:
+        ext = b';x=1' if kind == 'chunked-ext' else b''
+        out += b'%x' % len(ch) + ext + b'\r\n' + ch + b'\r\n'
+    out += b'0\r\n' + (b'X-T: v\r\n' if kind == 'chunked-trailer' else b'') + b'\r\n'
+    return out
+
+
+def malformed_response(rng):
+    return rng.choice([
+        b'HTTP/1.1 200 OK\r\nTransfer-Encoding: chunked\r\n\r\nzz\r\nhello\r\n0\r\n\r\n',
+        b'HTTP/1.1 200 OK\r\nContent-Length: abc\r\n\r\nxx',
+        b'HTTP/1.1 200 OK\r\nTransfer-Encoding: chunked\r\n\r\n5 5\r\nhello\r\n0\r\n\r\n',
+        b'HTTP/1.1 200 OK\r\nContent-Length: 1 2\r\n\r\nxyz',
+    ])
+
+
+def gen_relay(rng, profile='relay', n_events=None, max_send=None, handler=None):
+    """one event list.  profile: 'relay' (C01: long-lived exchanges), 'teardown' (C07: ends of exchanges,
+    error responses, web replies), 'timed' (C20: sparse events with large clock gaps)."""
+    max_send = max_send or rng.randrange(1, 10)
+    handler = handler or ('tunnel' if rng.random() < 0.12 else 'http')
+    case = dict(kind='relay', profile=profile, handler=handler, max_send=max_send, timeout=rng.choice([1, 2, 10]),
+                t0=T0, threaded=False, web=False, connect=[], events=[], sel=[])
+    r = rng.random()
+    if handler == 'tunnel':
+        exchange = 'connect' if r < 0.9 else 'notconnect'
+    elif profile == 'teardown':
+        exchange = 'connect' if r < 0.2 else 'http' if r < 0.5 else 'web404' if r < 0.62 else 'webroute' if r < 0.72 \
+            else 'badreq' if r < 0.82 else 'connectfail' if r < 0.92 else 'malformed-upstream'
+    else:
+        exchange = 'connect' if r < 0.45 else 'http' if r < 0.9 else 'malformed-upstream' if r < 0.95 else 'web404'
+    case['exchange'] = exchange
+    if exchange in ('web404', 'webroute'):
+        case['web'] = True
+    if exchange == 'connectfail':
+        case['connect'] = [rng.choice(['refused', 'timeout', 'gaierror', 'unreach'])]
+    # client side plan: first request in pieces, then data
+    if exchange in ('connect', 'connectfail'):
+        first = connect_request(rng) if rng.random() < 0.7 or handler == 'tunnel' else http_request(rng)
+    elif exchange == 'notconnect':
+        first = http_request(rng)
+    elif exchange in ('http', 'malformed-upstream'):
+        first = http_request(rng)
+    elif exchange == 'web404':
+        first = web_request(rng, rng.choice(['/nothing-here', '/', '/favicon.ico']))
+    elif exchange == 'webroute':
+        first = web_request(rng, '/http-route-example')
+    else:
+        first = rng.choice([b'GET / HTTP/1.1\r\nHost\r\n\r\n', b'\x16\x03\x01\x02\x00\x01\x00\r\n\r\n', b'NOT A REQUEST\r\n\r\n',
+                            b'GET http://h.example:99999999999999999999/ HTTP/1.1\r\n\r\n'])
+    client_plan = cut(rng, first, rng.choice([1, 1, 2, 3]))
+    n_events = n_events or rng.choice([12, 20, 30, 40])
+    n_client_data = rng.choice([0, 1, 2, 4])
+    n_up = rng.choice([1, 3, 6, 10]) if profile != 'timed' else rng.choice([0, 1, 2])
+    if exchange == 'connect':
+        for _ in range(n_client_data):
+            client_plan.append(rand_bytes(rng, rng.choice([1, 2, max_send, max_send + 1, 2 * max_send + 1, 11])))
+        up_plan = [rand_bytes(rng, rng.choice([1, 2, max(1, max_send - 1), max_send, max_send + 1, 3 * max_send, 17])) for _ in range(n_up)]
+    elif exchange == 'http':
+        resp = response_bytes(rng)
+        if rng.random() < 0.3:
+            resp += response_bytes(rng)
+        up_plan = cut(rng, resp, rng.choice([1, 2, 4, 7]))
+        if rng.random() < 0.4:
+            client_plan += cut(rng, http_request(rng), rng.choice([1, 2]))      # a pipelined / keep-alive request
+    elif exchange == 'malformed-upstream':
+        up_plan = cut(rng, malformed_response(rng), rng.choice([1, 2, 3]))
+    elif exchange == 'webroute':
+        up_plan = []
+        if rng.random() < 0.5:
+            client_plan += cut(rng, web_request(rng, '/http-route-example'), 2)
+    else:
+        up_plan = []
+    # how the exchange ends
+    end = rng.random()
+    if profile == 'teardown':
+        ending = 'up-eof' if end < 0.45 else 'up-reset' if end < 0.55 else 'client-eof' if end < 0.7 else \
+            'up-send-error' if end < 0.8 else 'up-timeout' if end < 0.85 else 'none'
+    else:
+        ending = 'up-eof' if end < 0.25 else 'client-eof' if end < 0.32 else 'client-reset' if end < 0.36 else \
+            'up-send-error' if end < 0.40 else 'client-send-error' if end < 0.44 else 'none'
+    case['ending'] = ending
+    if ending in ('up-eof',):
+        up_plan.append('eof')
+    elif ending == 'up-reset':
+        up_plan.append(rng.choice(['reset', 'oserror']))
+    elif ending == 'up-timeout':
+        up_plan.append(rng.choice(['timeout', 'timeout0']))
+    elif ending == 'client-eof':
+        client_plan.append('eof')
+    elif ending == 'client-reset':
+        client_plan.append(rng.choice(['reset', 'timeout', 'oserror']))
+    perr_c = 0.05 if ending == 'client-send-error' else 0.0
+    perr_u = 0.15 if ending == 'up-send-error' else 0.0
+    now = T0
+    slow_client = rng.random() < 0.4          # the client reads slowly: few writable reports, small accepts
+    for i in range(n_events):
+        gap = rng.choice([0, 1, 5, 300]) if profile != 'timed' else rng.choice([1, 200, TICK, case['timeout'] * TICK - 1,
+                                                                                case['timeout'] * TICK, case['timeout'] * TICK + 1])
+        now += gap
+        ev = dict(now=now, r=[], w=[])
+        if client_plan and rng.random() < (0.6 if i < 4 else 0.35):
+            ev['r'].append('client')
+            ev['c_recv'] = client_plan.pop(0)
+        elif rng.random() < 0.04:
+            ev['r'].append('client')              # spurious wake-up: recv would block
+        if up_plan and rng.random() < 0.5:
+            ev['r'].append('up0')
+            ev['u_recv'] = up_plan.pop(0)
+        if rng.random() < (0.35 if slow_client else 0.8):
+            ev['w'].append('client')
+            ev['c_send'] = rand_outcome(rng, maxk=max_send, perr=perr_c, pblock=0.25 if slow_client else 0.1)
+        if rng.random() < 0.7:
+            ev['w'].append('up0')
+            ev['u_send'] = rand_outcome(rng, maxk=max_send, perr=perr_u)
+        d = case['timeout'] * TICK
+        ev['probe'] = now + rng.choice([0, 1, d - 1, d, d + 1, d + TICK])
+        case['events'].append(ev)
+    # let pending output drain at the end (the client "keeps reading")
+    for _ in range(rng.choice([0, 6, 25])):
+        now += 1
+        case['events'].append(dict(now=now, r=[], w=['client', 'up0'], c_send=rng.choice([1, 2, max_send, 100000]),
+                                   u_send=100000, probe=now))
+    return case
